@@ -239,5 +239,21 @@ check("C09",
       technique="complete enumeration of a finite configuration space plus exhaustive enumeration of addition sequences up to a bound, on the implementation",
       engine="zoo", design="3/C09")
 
+check("C14",
+      passes=[dict(name="C14", src=["harness/C14.cpp"], shared=ZOO, deps=ZOO_DEPS, variant="asan", shards={"quick": 8, "thorough": 16})],
+      rule="under ASan+UBSan (-fno-sanitize-recover): every entry of the factory table x {as built, after its row set its links, "
+           "after the table was built twice on the same Lexicon} x EVERY accessor of its interface (primitives, virtual extras, and the "
+           "common accessors of Expr/Classic/Type/Directive/Stmt/Decl), 4 (quick) / 12 (thorough) operand rotations; for 45 kinds with "
+           "settable links ALL subsets of links set (incl. links to untyped nodes), each on a fresh node; every Sequence reached through "
+           "an accessor is iterated and indexed at 0..size()+2, SIZE_MAX, SIZE_MAX/2, 2^32+size(); util::string::operator[]. Oracle: "
+           "each call returns or throws something derived from std::logic_error; iteration visits exactly size() elements and agrees "
+           "with position(i). distinct_nontrivial = distinct (interface, fingerprint) outcomes.",
+      text="Complete enumeration of the accessor x state space on factory-built nodes with sanitizers as the oracle for "
+           "undefined behaviour.",
+      note="Only nodes produced by the factories are used (a default-constructed Iterator, a ref_sequence(n) of nulls or a null "
+           "pushed by the client are outside the quantifier). UB invisible to ASan/UBSan is not detected.",
+      technique="complete enumeration of a finite accessor x partial-state space on the implementation under ASan/UBSan",
+      engine="zoo", design="3/C14", deadline={"quick": 200, "thorough": 1500})
+
 # Properties not claimed (with the reason that goes to MANIFEST.not_applicable).
 NOT_CLAIMED = {}
